@@ -47,6 +47,10 @@ TYPES = {
     "size_t": dict(c="size_t", bits=64, signed=False, k="i", f="integer(C_SIZE_T)", fk="_C_SIZE_T", py="int"),
     "int32_t": dict(c="int32_t", bits=32, signed=True, k="i", f="integer(C_INT32_T)", fk="_C_INT32_T", py="int"),
     "int64_t": dict(c="int64_t", bits=64, signed=True, k="i", f="integer(C_INT64_T)", fk="_C_INT64_T", py="int"),
+    "int16_t": dict(c="int16_t", bits=16, signed=True, k="i", f="integer(C_INT16_T)", fk="_C_INT16_T", py="int"),
+    "uint16_t": dict(c="uint16_t", bits=16, signed=False, k="i", f="integer(C_INT16_T)", fk="_C_INT16_T", py="int"),
+    "uint32_t": dict(c="uint32_t", bits=32, signed=False, k="i", f="integer(C_INT32_T)", fk="_C_INT32_T", py="int"),
+    "uint64_t": dict(c="uint64_t", bits=64, signed=False, k="i", f="integer(C_INT64_T)", fk="_C_INT64_T", py="int"),
     "float": dict(c="float", bits=32, k="r", f="real(C_FLOAT)", fk="_C_FLOAT", py="float"),
     "double": dict(c="double", bits=64, k="r", f="real(C_DOUBLE)", fk="_C_DOUBLE", py="float"),
     "bool": dict(c="bool", bits=8, k="b", f="logical", fk="", py="bool"),
@@ -54,7 +58,7 @@ TYPES = {
     "char": dict(c="char", bits=8, signed=True, k="i", f="character(kind=C_CHAR)", fk="", py="str", char=True),
 }
 KINDS_FOR_USE = {"int": "C_INT", "long": "C_LONG", "short": "C_SHORT", "long long": "C_LONG_LONG", "unsigned int": "C_INT",
-                 "size_t": "C_SIZE_T", "int32_t": "C_INT32_T", "int64_t": "C_INT64_T", "float": "C_FLOAT", "double": "C_DOUBLE", "char": "C_CHAR"}
+                 "size_t": "C_SIZE_T", "int32_t": "C_INT32_T", "int64_t": "C_INT64_T", "int16_t": "C_INT16_T", "uint16_t": "C_INT16_T", "uint32_t": "C_INT32_T", "uint64_t": "C_INT64_T", "float": "C_FLOAT", "double": "C_DOUBLE", "char": "C_CHAR"}
 
 IN_KINDS = {"cls_cptr", "cls_cref", "cls_ref", "val", "ptr_in", "ptr_inout", "ref_inout", "arr_in", "arr_inout", "implied", "cstr_in", "cstr_inout", "str_cref",
             "str_val", "str_cptr", "str_ref_inout", "str_ptr_inout", "vec_in", "vec_inout"}
